@@ -141,31 +141,47 @@ Theorem C14_stage_order : forall h f bk user outf h' s rules, valid h outf ->
 Proof. exact stage_order. Qed.
 Print Assumptions C14_stage_order.
 
-(* histories.  FULL STATEMENT (false, see C14_history_refuted): the premise `snd (mexec ...) = true`
-   dropped, i.e. every history of API calls (bracketings of +, resolver calls, backend
-   initialisations, conversions with and without re-initialisation, on two backend instances sharing
-   the class-level pipelines, operands fresh or used; resolver table of registered objects `tn_objs`,
-   tables with callables / files are covered by the correspondence only) shows what the value-only specification of
-   that history shows.  Proved part: the histories in which the initial objects are distinct and
-   every conversion WITHOUT re-initialisation runs a pipeline that still owns its objects (the
-   second component of mexec; conversions through Backend.convert() always qualify). *)
-Theorem C14_history_partial : forall f defs tn bkd outd rules prog h0 l,
+(* histories on two backend objects of one class.  FULL STATEMENT (false, see C14_history_refuted and
+   C14_history_format_refuted): the premise `snd (mexec ...) = true` dropped, i.e. every history of
+   API calls (bracketings of +, sums, resolver calls, init_processing_pipeline / convert() /
+   convert_rule() with the output format and the user pipeline chosen per call, operands fresh or
+   used) shows what the value-only specification of that history shows: every conversion runs the
+   backend's pipeline, then the user pipeline the backend object currently has, then the output-format
+   pipeline OF THE FORMAT REQUESTED BY THAT CALL, in the stage order of abs_run.
+   Proved part: the histories in which the initial objects are distinct, the resolver table holds
+   registered objects (`tn_objs`; callables / files are covered by the correspondence only) and every
+   convert_rule() on an already initialised backend object finds a pipeline that still owns its
+   objects and was built for the requested format (second component of mexec).  Backend.convert()
+   re-initialises and therefore always qualifies - for every sequence of formats and user pipelines. *)
+Theorem C14_history_partial : forall defs tn bkd od ot os rules prog h0 l,
   tn_objs tn ->
-  mk_defs h_empty (defs ++ [bkd; outd]) = (h0, Ok l) ->
-  snd (mexec f defs tn bkd outd rules prog) = true ->
-  fst (mexec f defs tn bkd outd rules prog)
-  = aexec f (map adef defs) tn (apipe_of bkd) (apipe_of outd) rules prog.
+  mk_defs h_empty (defs ++ [bkd; od; ot; os]) = (h0, Ok l) ->
+  snd (mexec defs tn bkd od ot os rules prog) = true ->
+  fst (mexec defs tn bkd od ot os rules prog)
+  = aexec (map adef defs) tn (apipe_of bkd) (by_fmt (apipe_of od) (apipe_of ot) (apipe_of os)) rules prog.
 Proof. exact history_sound. Qed.
 Print Assumptions C14_history_partial.
 
+(* D18: a later addition re-owns the items *)
 Theorem C14_history_refuted :
-  exists f defs tn bkd outd rules prog l,
-    tn_objs tn /\ snd (mk_defs h_empty (defs ++ [bkd; outd])) = Ok l /\
-    snd (mexec f defs tn bkd outd rules prog) = false /\
-    fst (mexec f defs tn bkd outd rules prog)
-    <> aexec f (map adef defs) tn (apipe_of bkd) (apipe_of outd) rules prog.
+  exists defs tn bkd od ot os rules prog l,
+    tn_objs tn /\ snd (mk_defs h_empty (defs ++ [bkd; od; ot; os])) = Ok l /\
+    snd (mexec defs tn bkd od ot os rules prog) = false /\
+    fst (mexec defs tn bkd od ot os rules prog)
+    <> aexec (map adef defs) tn (apipe_of bkd) (by_fmt (apipe_of od) (apipe_of ot) (apipe_of os)) rules prog.
 Proof. exact history_refuted. Qed.
 Print Assumptions C14_history_refuted.
+
+(* D30: convert_rule() for another format keeps the pipeline built for the earlier one
+   (witness: convert(test) then convert_rule(state)) *)
+Theorem C14_history_format_refuted :
+  exists defs tn bkd od ot os rules prog l,
+    tn_objs tn /\ snd (mk_defs h_empty (defs ++ [bkd; od; ot; os])) = Ok l /\
+    snd (mexec defs tn bkd od ot os rules prog) = false /\
+    fst (mexec defs tn bkd od ot os rules prog)
+    <> aexec (map adef defs) tn (apipe_of bkd) (by_fmt (apipe_of od) (apipe_of ot) (apipe_of os)) rules prog.
+Proof. exact history_format_refuted. Qed.
+Print Assumptions C14_history_format_refuted.
 
 (* non-vacuity: the premises are met by concrete pipelines, and a sum that is defined *)
 Example C14_premises_inhabited :
@@ -173,7 +189,7 @@ Example C14_premises_inhabited :
   snd (add w_h0 w_p w_q) = Ok w_s /\ owned (fst (add w_h0 w_p w_q)) w_s.
 Proof. exact premises_inhabited. Qed.
 Example C14_history_premises_inhabited :
-  exists l, snd (mk_defs h_empty ([w_defA; w_defE (Some [98])] ++ [w_defE None; w_defE None])) = Ok l /\
-  snd (mexec FState [w_defA; w_defE (Some [98])] [] (w_defE None) (w_defE None) w_rules w_prog_fresh) = true /\
-  exists r, fst (mexec FState [w_defA; w_defE (Some [98])] [] (w_defE None) (w_defE None) w_rules w_prog_fresh) = Ok r.
+  exists l, snd (mk_defs h_empty ([w_defA; w_defE (Some [98])] ++ [w_defE None; w_defE None; w_defE None; w_defE None])) = Ok l /\
+  snd (mexec [w_defA; w_defE (Some [98])] [] (w_defE None) (w_defE None) (w_defE None) (w_defE None) w_rules w_prog_fresh) = true /\
+  exists r, fst (mexec [w_defA; w_defE (Some [98])] [] (w_defE None) (w_defE None) (w_defE None) (w_defE None) w_rules w_prog_fresh) = Ok r.
 Proof. exact history_inhabited. Qed.
